@@ -64,7 +64,7 @@ PLAN['C07'] = {
             'specification only. A case is non-trivial when the specification is admissible (a grid was built and '
             'queried); distinct = distinct specification hashes.',
     'floor': ['c07.accessor_checks', 'c07.grids_looped_size2_axis', 'c07.symmetry_checks', 'c07.order.two_grids',
-              'c07.order.other_thread'],
+              'c07.order.other_thread', 'c07.wide_grids'],
     'exhaustive_counter': 'enumerated_cases',
     'exhaustive_scope': 'shapes/spacings/border combinations listed in rule, for each of the 8 structured grid '
                         'configurations (3 connectivities, cache on/off, profile on/off); query orders are sampled',
@@ -198,7 +198,7 @@ PLAN['C03']['thorough'] = lambda seed: _c03t(seed) + runs('h_conc', ['raster_que
                                        + runs('h_conc', ['raster_queen', 'trimesh'], 'tsan', 1, 60, ['--x-delays', '0'], prop='C03', case_timeout=900)
 PLAN['C03']['rule'] += (' Plus concurrent accumulate() calls from two threads with different sources on one routed graph (h_conc, ASan and TSan '
                         'flavours): each must return the bits of the sequential call.')
-PLAN['C03']['floor'] = PLAN['C03']['floor'] + ['c03.concurrent_accumulate_rounds']
+PLAN['C03']['floor'] = PLAN['C03']['floor'] + ['c03.concurrent_accumulate_rounds', 'c03.snapshot_graphs_checked', 'c03.unit_source_checks']
 PLAN['C03']['max_parallel'] = 12
 
 # the multi-threaded single router is part of C04's quantifier: ThreadSanitizer run of the parallel router workload
@@ -232,7 +232,7 @@ PLAN['C19'] = flow_plan(
     'multiple), masks, basins() called once or twice after every update. Oracle: label = label of the receiver, outlets '
     'numbered 0.. in bottom-up (dfs) order, masked nodes carry the maximum label, label count = unmasked outlets = '
     'impl().outlets(), pits() = outlets that are not base levels. Non-trivial: >= 2 basins.',
-    ['c19.delineations_checked'])
+    ['c19.delineations_checked', 'c19.snapshot_graphs_checked'])
 
 
 # ------------------------------------------------------------------------------------------------ history harness (h_hist)
@@ -263,6 +263,7 @@ PLAN['C16'] = {
             'elevation returned by that prefix graph; update_routes / set_base_levels / set_mask on a snapshot must fail. '
             'Non-trivial: >= 1 snapshot and >= 2 updates. distinct = distinct hashes of (grid, operators, inputs).',
     'floor': ['c16.graph_snapshots_compared', 'c16.elevation_snapshots_compared', 'c16.refusals_checked',
+              'c16.snapshots_reread_before_next_update',
               'c16.single_flow_snapshots', 'c16.multi_flow_snapshots'],
     'assumptions': ['a prefix without a router (e.g. [pflood]) is completed with a single router, which does not edit elevation; '
                     'only the elevation is compared then'],
@@ -299,7 +300,8 @@ PLAN['C12'] = {
             'max|z|; a lowered node stays >= lowest post-erosion receiver (same tolerance); n_corr() = number of nodes recorded by '
             'the verification hook, each of them on its floor; constructing / set_slope_exp with n in {0.3,0.5,0.8,0.999,1.001,1.5,2} '
             'on a multiple-direction graph throws, n = 1 does not. Non-trivial: some node was eroded.',
-    'floor': ['c12.nodes_checked', 'c12.lake_nodes', 'c12.limited_nodes', 'c12.rejections_expected', 'spl.graph.multi',
+    'floor': ['c12.nodes_checked', 'c12.lake_nodes', 'c12.limited_nodes', 'c12.rejections_expected', 'c12.repeated_rejections_checked',
+              'c12.snapshot_rejection_checks', 'spl.graph.multi',
               'spl.graph.single', 'spl.elevation.unfilled', 'spl.slope_exp.below_one', 'spl.slope_exp.above_one'],
     'assumptions': ['parameter products finite (<= 1e250)', 'Newton tolerance >= 1e-6 with |z| <= 1e5 for n != 1'],
     'quick': lambda seed: runs('h_erode', FLOW6, 'asan', 2, 2500),
@@ -312,7 +314,8 @@ PLAN['C13'] = {
             'evaluated in long double is within 1e-9 x sum|terms| + rounding of the stored elevations amplified by the sensitivity '
             'of the equation (+ the Newton tolerance when n != 1). Non-trivial: a checked node was eroded. Exponents below, at '
             'and above one must all be reached.',
-    'floor': ['c13.nodes_checked.n_below_one', 'c13.nodes_checked.n_one', 'c13.nodes_checked.n_above_one',
+    'floor': ['c13.nodes_checked.n_below_one', 'c13.nodes_checked.n_one', 'c13.nodes_checked.n_above_one', 'c13.lake_nodes_checked',
+              'spl.slope_exp.near_one',
               'c13.eroded_nodes_checked', 'spl.graph.multi', 'spl.elevation.unfilled', 'spl.param_change.slope_exp'],
     'assumptions': ['limited nodes are identified by the SPL verification hook (verif_corrected_nodes)',
                     'nodes whose drop rounds to <= 0 with n <= 1 are skipped and counted (infinite sensitivity)'],
@@ -331,7 +334,7 @@ PLAN['C14'] = {
             'with other border statuses bit-identical; scalar vs uniform array; linearity. Non-trivial: non-zero erosion somewhere.',
     'floor': ['c14.interior_nodes_compared', 'c14.stiff_steps', 'c14.moderate_steps', 'c14.k_changed_on_same_eroder',
               'c14.same_dt_as_previous_step', 'c14.status_independence_checks', 'c14.scalar_vs_uniform_array_checks',
-              'c14.linearity_checks', 'c14.k.array_small_relative_variation'],
+              'c14.linearity_checks', 'c14.k.array_small_relative_variation', 'c14.k_given_as_float_array'],
     'assumptions': ['rounding of the explicit part of a half step is amplified by (1 + 4 dt f): the tolerance grows with stiffness'],
     'quick': lambda seed: runs('h_erode', RASTER4, 'asan', 3, 1200),
     'thorough': lambda seed: runs('h_erode', RASTER4, 'asan', 4, 15000),
